@@ -1,6 +1,6 @@
 """Property -> rules mapping, level texts, assumptions."""
 from . import entries
-from .rules import (canon, facade, flag, floatrule, guard, limbs, macro, sibling, structural, table, total_rule, unimpl,
+from .rules import (canon, codec, facade, flag, floatrule, guard, limbs, macro, sibling, structural, table, total_rule, unimpl,
                     variant, witness)
 
 COMMON_ASSUMPTIONS = [
@@ -133,6 +133,10 @@ def rules_C03(ctx):
     return total_for("C03", ctx) + [unimpl.run(ctx, "all"), guard.zero_divisor(ctx)]
 
 
+def rules_C16(ctx):
+    return total_for("C16", ctx) + [codec.run(ctx), structural.wf(ctx, marker_generic=False)]
+
+
 def rules_C17(ctx):
     return total_for("C17", ctx) + [guard.c17(ctx)]
 
@@ -194,7 +198,7 @@ PROPS = {
              "summaries)", "values, termination of root, float estimates", rules_C13,
              ["values", "termination of root", "float estimates inside log"]),
     "C16": P("C16", "encoders, length and size-hint functions reach no undischarged panic site (R-TOTAL)",
-             "round trip, byte-exact reference encodings, size-hint arithmetic", rules_total_only("C16"),
+             "round trip, byte-exact reference encodings, size-hint arithmetic", rules_C16,
              ["round trip", "reference encodings", "size-hint arithmetic (F16: scale CompactRefUint::size_hint)"]),
     "C17": P("C17", "every decoder entry point (serde, rlp, alloy-rlp, fastrlp, SCALE, SSZ, borsh, DER, postgres, "
              "num-bigint, sqlx, diesel, pyo3, bn-rs, byte-slice and string parsers) reaches no undischarged panic site "
